@@ -1,15 +1,45 @@
 use crate::runner::Prop;
+use expression_engine::{register_infix_op, register_postfix_op, register_prefix_op, InfixOpAssociativity, InfixOpType, Value};
+use serde_json::Value as J;
+use std::sync::Arc;
+pub mod c01;
 pub mod c02;
+pub mod c05;
 pub mod c09;
+pub mod c10;
 pub mod c11;
 pub mod c12;
 pub mod c17;
 
 pub fn all() -> Vec<&'static Prop> {
-    vec![&c02::PROP, &c11::PROP, &c12::PROP, &c09::PROP, &c17::PROP]
+    vec![&c01::PROP, &c02::PROP, &c05::PROP, &c09::PROP, &c10::PROP, &c11::PROP, &c12::PROP, &c17::PROP]
 }
 
 pub fn worker_main(kind: &str, _args: &[String]) -> i32 {
-    eprintln!("unknown worker kind {}", kind);
-    2
+    match kind {
+        "c01" => c01::worker(),
+        "c10" => c10::worker(),
+        _ => {
+            eprintln!("unknown worker kind {}", kind);
+            2
+        }
+    }
+}
+
+/// registers an operator described as {"kind","name","prec","right"}; the handler returns
+/// List[id, operands...] so that a result reveals which handler ran on what
+pub fn register_op(op: &J, id: i64) {
+    let name = op["name"].as_str().unwrap_or("");
+    match op["kind"].as_str().unwrap_or("") {
+        "infix" => register_infix_op(
+            name,
+            op["prec"].as_i64().unwrap_or(100) as i32,
+            InfixOpType::CALC,
+            if op["right"].as_bool().unwrap_or(false) { InfixOpAssociativity::RIGHT } else { InfixOpAssociativity::LEFT },
+            Arc::new(move |a, b| Ok(Value::List(vec![Value::from(id), a, b]))),
+        ),
+        "prefix" => register_prefix_op(name, Arc::new(move |a| Ok(Value::List(vec![Value::from(id), a])))),
+        "postfix" => register_postfix_op(name, Arc::new(move |a| Ok(Value::List(vec![Value::from(id), a])))),
+        _ => {}
+    }
 }
